@@ -1,35 +1,24 @@
 import CohdlVerif.Lemmas.C02Lemmas
+import CohdlVerif.Lemmas.C02Cases
 
 /-!
   C02 - property theorems.  Model: CohdlVerif/Model/C02.lean (`typeOf`, `evalSpec`, `lower`, `evalV`),
-  helper lemmas: CohdlVerif/Lemmas/C02Lemmas.lean.
+  helper lemmas: CohdlVerif/Lemmas/C02Lemmas.lean, CohdlVerif/Lemmas/C02Cases.lean.
 
-  Full-strength statement of the property on the model:
+  The property on the model, at full strength and for EVERY constructor of `Expr`:
 
       C02.lower_correct :  typeOf e = .ok t → defined e env = true →
-                           evalV (lower e) env = inj t (evalSpec e env)           (all e, all widths, all env)
+                           InRange t (evalSpec e env) ∧ evalV (lower e) env = inj t (evalSpec e env)
+                                                                        (all e, all widths, all env)
 
   i.e. the VHDL the back end prints for `e`, read with IEEE numeric_std / std_logic_1164, yields the documented
-  value with the documented type and width (`inj t` fixes kind and length of the VHDL value).
-  Proved here: one lemma per operator and operand-kind pair for the arithmetic operators (all six operators x
-  {Unsigned, Signed} x {vector, Python int on either side}), the documented laws as corollaries, shifts,
-  concatenation, resize, and the induction over `Expr` for the fragment `Frag` (ports, typed constants, Python
-  ints, all arithmetic operators, resize) = `C02.lower_correct_partial`.  Missing for the full statement: the
-  induction cases of the remaining constructors (bitwise, comparison, views, index / slice, boolean operators,
-  if-expression, select_with); for those `evalV (lower e) = inj t (evalSpec e)` is evaluated by the model driver on
-  every explored valuation (answer MODEL-MISMATCH, never seen) instead of being proved.
+  value with the documented type and width (`inj t` fixes kind and length of the VHDL value); `defined` excludes
+  only division by zero.  It is proved by induction over `Expr` from one value-level lemma per operator family
+  (`C02.<family>_correct`, all widths and all values) and one induction case per constructor (`C02.case_<constructor>`).
 -/
 open CohdlVerif.C02
 
 namespace CohdlVerif.C02
-
-/-- the fragment covered by the induction -/
-inductive Frag : Expr → Prop
-  | port (i t) : Frag (.port i t)
-  | lit (t v) : Frag (.lit t v)
-  | intc (k) : Frag (.intc k)
-  | arith (op a b) : Frag a → Frag b → Frag (.arith op a b)
-  | resize (a w) : Frag a → Frag (.resize a w)
 
 def isDivOp (op : AOp) : Prop := op = .div ∨ op = .mod ∨ op = .rem
 
@@ -220,222 +209,997 @@ theorem C02.resize_preserves_value (w w' : Nat) (x : Int) (hw : w ≤ w') :
     simp [inj, vresizeV, this]
 
 
-/-! ### the induction over `Expr` (fragment `Frag`: ports, typed constants, Python ints, all arithmetic
-    operators with every operand-kind pair, resize) -/
 
-/-- C02 on the model, fragment `Frag`: for every expression of the fragment, every width, every operand
-    valuation of the documented domain (no division by zero): the emitted VHDL expression evaluates under
-    numeric_std to the documented value, with the documented type and width, and that value is in range.
-    FULL statement (`C02.lower_correct`): the same without `Frag e`; missing: the induction cases of the other
-    constructors (see the header of this file). -/
-theorem C02.lower_correct_partial (env : Env) (e : Expr) (hF : Frag e) :
-    ∀ t, typeOf e = .ok t → defined e env = true →
-      InRange t (evalSpec e env) ∧ evalV (lower e) env = inj t (evalSpec e env) := by
-  induction hF with
-  | port i t =>
-    intro t' ht _
-    cases t <;> simp [typeOf, ite_ok_iff] at ht
-    · subst ht; simp [evalSpec, readPort, InRange, lower, evalV]
-    · obtain ⟨hw, rfl⟩ := ht
-      refine ⟨?_, by simp [evalSpec, lower, evalV]⟩
-      simp only [evalSpec, readPort, wrap]
-      exact ⟨hw, (wrapU_range _ _).1, (wrapU_range _ _).2⟩
-    · obtain ⟨hw, rfl⟩ := ht
-      refine ⟨?_, by simp [evalSpec, lower, evalV]⟩
-      simp only [evalSpec, readPort, wrap]
-      exact inRange_wrapU hw _
-    · obtain ⟨hw, rfl⟩ := ht
-      refine ⟨?_, by simp [evalSpec, lower, evalV]⟩
-      simp only [evalSpec, readPort, wrap]
-      exact inRange_wrapS hw _
-  | lit t v =>
-    intro t' ht _
-    cases t <;> simp [typeOf, ite_ok_iff] at ht
-    · obtain ⟨_, rfl⟩ := ht
-      simp [evalSpec, InRange, lower, litV, evalV, inj]
-    · obtain ⟨hw, hf, rfl⟩ := ht
-      simp only [fits, Bool.and_eq_true, decide_eq_true_eq] at hf
-      exact ⟨⟨hw, hf.1, hf.2⟩, by simp [evalSpec, lower, litV, evalV, inj, vkOf, Ty.width]⟩
-    · obtain ⟨hw, hf, rfl⟩ := ht
-      simp only [fits, Bool.and_eq_true, decide_eq_true_eq] at hf
-      exact ⟨⟨hw, hf.1, hf.2⟩, by simp [evalSpec, lower, litV, evalV, inj, vkOf, Ty.width]⟩
-    · obtain ⟨hw, hf, rfl⟩ := ht
-      simp only [fits, Bool.and_eq_true, decide_eq_true_eq] at hf
-      exact ⟨⟨hw, hf.1, hf.2⟩, by simp [evalSpec, lower, litV, evalV, inj, vkOf, Ty.width]⟩
-  | intc k =>
-    intro t' ht _
-    simp [typeOf] at ht; subst ht
-    simp [evalSpec, InRange, lower, evalV, inj]
-  | arith op a b _ _ iha ihb =>
-    intro t ht hd
-    simp only [typeOf] at ht
-    cases hta : typeOf a with
-    | error er => simp [hta] at ht
-    | ok ta =>
-    cases htb : typeOf b with
-    | error er => simp [hta, htb] at ht
-    | ok tb =>
-    simp only [hta, htb] at ht
-    simp only [defined, Bool.and_eq_true] at hd
-    obtain ⟨⟨hda, hdb⟩, hdz⟩ := hd
-    obtain ⟨ra, ea⟩ := iha ta hta hda
-    obtain ⟨rb, eb⟩ := ihb tb htb hdb
-    have hty : typeOf (.arith op a b) = .ok t := by simp only [typeOf, hta, htb]; exact ht
-    have hdiv : isDivOp op → (evalSpec b env).num ≠ 0 := by
-      intro h; rcases h with rfl | rfl | rfl <;> simpa using hdz
-    simp only [lower, evalV, ea, eb, evalSpec, hty, tyOr]
-    cases hva : evalSpec a env with
-    | b xa => cases ta <;> cases tb <;> simp_all [arithTy, InRange]
-    | n xa =>
-    cases hvb : evalSpec b env with
-    | b xb => cases ta <;> cases tb <;> simp_all [arithTy, InRange]
-    | n xb =>
-    rw [hva] at ra; rw [hvb] at rb hdiv
-    simp only [Val.num] at hdiv ⊢
-    cases ta <;> cases tb <;> simp only [arithTy] at ht
-    all_goals try (simp at ht; done)
-    · -- uns uns
-      rename_i wa wb
-      cases ht
-      exact ⟨inRange_wrapU (arithVV_pos op ra.1 rb.1) _, C02.arith_uns_uns op wa wb xa xb ra rb hdiv⟩
-    · -- uns int
-      rename_i w
-      cases hib : intVal b with
-      | none => simp [hib] at ht
-      | some k =>
-        simp only [hib, ite_ok_iff] at ht
-        obtain ⟨hf, ht⟩ := ht
-        cases ht
-        have hbk := intVal_some hib
-        subst hbk
-        simp only [evalSpec] at hvb
-        cases hvb
-        exact ⟨inRange_wrapU (arithVI_pos op ra.1) _, C02.arith_uns_int op w xa _ ra hf hdiv⟩
-    · -- sgn sgn
-      rename_i wa wb
-      cases ht
-      exact ⟨inRange_wrapS (arithVV_pos op ra.1 rb.1) _, C02.arith_sgn_sgn op wa wb xa xb ra rb hdiv⟩
-    · -- sgn int
-      rename_i w
-      cases hib : intVal b with
-      | none => simp [hib] at ht
-      | some k =>
-        simp only [hib, ite_ok_iff] at ht
-        obtain ⟨hf, ht⟩ := ht
-        cases ht
-        have hbk := intVal_some hib
-        subst hbk
-        simp only [evalSpec] at hvb
-        cases hvb
-        exact ⟨inRange_wrapS (arithVI_pos op ra.1) _, C02.arith_sgn_int op w xa _ ra hf hdiv⟩
-    · -- int uns
-      rename_i w
-      cases hia : intVal a with
-      | none => simp [hia] at ht
-      | some k =>
-        simp only [hia, ite_ok_iff] at ht
-        obtain ⟨hf, ht⟩ := ht
-        cases ht
-        have hak := intVal_some hia
-        subst hak
-        simp only [evalSpec] at hva
-        cases hva
-        exact ⟨inRange_wrapU (arithVI_pos op rb.1) _, C02.arith_int_uns op w xb _ rb hf hdiv⟩
-    · -- int sgn
-      rename_i w
-      cases hia : intVal a with
-      | none => simp [hia] at ht
-      | some k =>
-        simp only [hia, ite_ok_iff] at ht
-        obtain ⟨hf, ht⟩ := ht
-        cases ht
-        have hak := intVal_some hia
-        subst hak
-        simp only [evalSpec] at hva
-        cases hva
-        exact ⟨inRange_wrapS (arithVI_pos op rb.1) _, C02.arith_int_sgn op w xb _ rb hf hdiv⟩
-  | resize a w _ iha =>
-    intro t ht hd
-    simp only [typeOf] at ht
-    cases hta : typeOf a with
-    | error er => simp [hta] at ht
-    | ok ta =>
-    simp only [hta] at ht
-    simp only [defined] at hd
-    obtain ⟨ra, ea⟩ := iha ta hta hd
-    cases hva : evalSpec a env with
-    | b xa => cases ta <;> simp_all [InRange]
-    | n xa =>
-    rw [hva] at ra
-    cases ta <;> simp only [ite_ok_iff] at ht
-    all_goals try (simp at ht; done)
-    · rename_i wa
-      obtain ⟨hle, ht⟩ := ht; cases ht
-      have hr := (C02.resize_preserves_value wa w xa hle).1 ra
-      have hs : evalSpec (.resize a w) env = .n xa := by simp [evalSpec, hva, Val.num]
-      rw [hs]
-      refine ⟨⟨le_trans ra.1 hle, ra.2.1, lt_of_lt_of_le ra.2.2 (p2mono hle)⟩, ?_⟩
-      simp only [lower, hta, tyOr, Ty.width]
-      split
-      · rename_i heq; subst heq; rw [ea, hva]
-      · simp only [evalV, ea, hva]; exact hr
-    · rename_i wa
-      obtain ⟨hle, ht⟩ := ht; cases ht
-      have hr := (C02.resize_preserves_value wa w xa hle).2 ra
-      have hm : (2 : Int) ^ (wa - 1) ≤ 2 ^ (w - 1) := p2mono (by omega)
-      have hs : evalSpec (.resize a w) env = .n xa := by simp [evalSpec, hva, Val.num]
-      rw [hs]
-      refine ⟨⟨le_trans ra.1 hle, by linarith [ra.2.1], lt_of_lt_of_le ra.2.2 hm⟩, ?_⟩
-      simp only [lower, hta, tyOr, Ty.width]
-      split
-      · rename_i heq; subst heq; rw [ea, hva]
-      · simp only [evalV, ea, hva]; exact hr
+/-! ### (1) bitwise and / or / xor / invert -/
+
+/-- bitwise `& | ^` on two vectors of the same kind and width (BitVector, Unsigned, Signed): bit by bit on the
+    patterns, result of the same type -/
+theorem C02.bitop_correct (op : LOp) (t : Ty) (va vb : Val) (hv : t.isVec = true)
+    (ha : InRange t va) (hb : InRange t vb) :
+    InRange t (.n (wrap t (lopN op (pat t va.num).toNat (pat t vb.num).toNat))) ∧
+    vbin (.ofL op) (inj t va) (inj t vb) = inj t (.n (wrap t (lopN op (pat t va.num).toNat (pat t vb.num).toNat))) := by
+  obtain ⟨x, p, rfl, ia, pl, pc, hw, pe⟩ := vecView hv ha
+  obtain ⟨y, q, rfl, ib, ql, qc, _, qe⟩ := vecView hv hb
+  have hl := lopN_lt op pl ql
+  have e1 : (pat t x).toNat = p := by rw [← pc]; simp
+  have e2 : (pat t y).toNat = q := by rw [← qc]; simp
+  simp only [Val.num, e1, e2]
+  rw [ia, ib]
+  cases t <;> simp [Ty.isVec] at hv <;> cases op <;>
+    simp_all [vbin, VBin.ofL, inj, vkOf, Ty.width, wrap, lopV, lopN, enc_wrapU, enc_wrapS, enc_natCast, InRange,
+      wrapU_range, wrapS_range]
+
+/-- ... and on two Bit operands -/
+theorem C02.bitop_bit_correct (op : LOp) (x y : Bool) :
+    vbin (.ofL op) (inj .bit (.b x)) (inj .bit (.b y)) = inj .bit (.b (lopB op x y)) := by
+  cases op <;> simp [vbin, VBin.ofL, inj, lopVB, lopB]
+
+/-- `~` : every bit inverted (Bit, BitVector, Unsigned: 2^w-1-x; Signed: -x-1) -/
+theorem C02.inv_correct :
+    (∀ x : Bool, vnot (inj .bit (.b x)) = inj .bit (.b (!x))) ∧
+    (∀ (w : Nat) (x : Int), InRange (.uns w) (.n x) →
+        InRange (.uns w) (.n (2 ^ w - 1 - x)) ∧ vnot (inj (.uns w) (.n x)) = inj (.uns w) (.n (2 ^ w - 1 - x))) ∧
+    (∀ (w : Nat) (x : Int), InRange (.bv w) (.n x) →
+        InRange (.bv w) (.n (2 ^ w - 1 - x)) ∧ vnot (inj (.bv w) (.n x)) = inj (.bv w) (.n (2 ^ w - 1 - x))) ∧
+    (∀ (w : Nat) (x : Int), InRange (.sgn w) (.n x) →
+        InRange (.sgn w) (.n (-x - 1)) ∧ vnot (inj (.sgn w) (.n x)) = inj (.sgn w) (.n (-x - 1))) := by
+  refine ⟨fun x => by simp [vnot, inj], ?_, ?_, ?_⟩
+  · rintro w x ⟨hw, h0, h1⟩
+    exact ⟨⟨hw, by linarith, by linarith⟩, by simp [vnot, inj, enc_not_uns h0 h1]⟩
+  · rintro w x ⟨hw, h0, h1⟩
+    exact ⟨⟨hw, by linarith, by linarith⟩, by simp [vnot, inj, enc_not_uns h0 h1]⟩
+  · rintro w x ⟨hw, h0, h1⟩
+    exact ⟨⟨hw, by linarith, by linarith⟩, by simp [vnot, inj, enc_not_sgn]⟩
 
 
-/-- result type and width of the emitted expression are the documented ones (fragment) -/
-theorem C02.lower_type_partial (env : Env) (e : Expr) (hF : Frag e) (t : Ty)
-    (ht : typeOf e = .ok t) (hd : defined e env = true) :
-    ∃ v, InRange t v ∧ evalV (lower e) env = inj t v :=
-  ⟨evalSpec e env, C02.lower_correct_partial env e hF t ht hd⟩
+theorem C02.case_bitop (env : Env) (op : LOp) (a b : Expr) (iha : Good env a) (ihb : Good env b) :
+    Good env (.bitop op a b) := by
+  intro t ht hd
+  simp only [typeOf] at ht
+  cases hta : typeOf a with
+  | error er => simp [hta] at ht
+  | ok ta =>
+  cases htb : typeOf b with
+  | error er => simp [hta, htb] at ht
+  | ok tb =>
+  simp only [hta, htb] at ht
+  simp only [defined, Bool.and_eq_true] at hd
+  obtain ⟨ra, ea⟩ := iha ta hta hd.1
+  obtain ⟨rb, eb⟩ := ihb tb htb hd.2
+  simp only [lower, evalV, ea, eb, evalSpec, hta, tyOr]
+  cases ta <;> cases tb <;> simp only [bitopTy, ite_ok_iff] at ht
+  all_goals try (simp at ht; done)
+  · cases ht
+    obtain ⟨x, hx⟩ := inR_bit ra
+    obtain ⟨y, hy⟩ := inR_bit rb
+    rw [hx, hy]
+    exact ⟨trivial, C02.bitop_bit_correct op x y⟩
+  all_goals
+    obtain ⟨hww, ht⟩ := ht
+    subst hww
+    cases ht
+    exact C02.bitop_correct op _ _ _ rfl ra rb
 
-/-- non-vacuity: `(p0 - 3) * p1 rem ...` style instance - a well-typed, defined expression of the fragment -/
-example : Frag (.arith .mul (.arith .sub (.port 0 (.sgn 4)) (.intc 3)) (.resize (.port 1 (.sgn 2)) 3)) ∧
-    typeOf (.arith .mul (.arith .sub (.port 0 (.sgn 4)) (.intc 3)) (.resize (.port 1 (.sgn 2)) 3)) = .ok (.sgn 7) ∧
-    defined (.arith .mul (.arith .sub (.port 0 (.sgn 4)) (.intc 3)) (.resize (.port 1 (.sgn 2)) 3)) [-8, -2] = true := by
-  refine ⟨.arith _ _ _ (.arith _ _ _ (.port _ _) (.intc _)) (.resize _ _ (.port _ _)), by decide, by decide⟩
+theorem C02.case_inv (env : Env) (a : Expr) (iha : Good env a) : Good env (.inv a) := by
+  intro t ht hd
+  simp only [typeOf] at ht
+  cases hta : typeOf a with
+  | error er => simp [hta] at ht
+  | ok ta =>
+  simp only [defined] at hd
+  obtain ⟨ra, ea⟩ := iha ta hta hd
+  simp only [lower, evalV, ea, evalSpec, hta, tyOr]
+  cases ta <;> simp [hta] at ht <;> cases ht
+  · obtain ⟨x, hx⟩ := inR_bit ra
+    rw [hx]; exact ⟨trivial, C02.inv_correct.1 x⟩
+  · obtain ⟨x, hx, _⟩ := inR_bv ra
+    rw [hx] at ra ⊢; exact C02.inv_correct.2.2.1 _ x ra
+  · obtain ⟨x, hx, _⟩ := inR_uns ra
+    rw [hx] at ra ⊢; exact C02.inv_correct.2.1 _ x ra
+  · obtain ⟨x, hx, _⟩ := inR_sgn ra
+    rw [hx] at ra ⊢; exact C02.inv_correct.2.2.2 _ x ra
 
-/-! ### shifts -/
 
-/-- `>>` is a logical shift for Unsigned (zeros enter on the left: floor division by 2^n), and for Signed
-    operands with the sign bit clear.  FULL statement (`C02.shr_logical_unsigned_arith_signed`): additionally,
-    for negative Signed `x`, `vshiftR (inj (.sgn w) (.n x)) (.int n) = inj (.sgn w) (.n (x / 2 ^ n))` (sign bits
-    enter on the left = floor division of the negative value); that case is not proved here - it is
-    evaluated by the model driver on every explored valuation (matrix of the check: all values of widths <= 4,
-    shift amounts 0 .. w+1). -/
-theorem C02.shr_logical_unsigned_arith_signed_partial (w n : Nat) (x : Int) :
-    (InRange (.uns w) (.n x) → vshiftR (inj (.uns w) (.n x)) (.int n) = inj (.uns w) (.n (x / 2 ^ n))) ∧
-    (InRange (.sgn w) (.n x) → 0 ≤ x → vshiftR (inj (.sgn w) (.n x)) (.int n) = inj (.sgn w) (.n (x / 2 ^ n))) := by
+/-! ### (2) comparisons -/
+
+/-- comparisons of two vectors of the same numeric kind (any widths): the mathematical order of the values;
+    `==`/`!=` of BitVectors of equal width, of Bits and of booleans -/
+theorem C02.cmp_correct (op : COp) :
+    (∀ wa wb x y, InRange (.uns wa) (.n x) → InRange (.uns wb) (.n y) →
+        vrel op (inj (.uns wa) (.n x)) (inj (.uns wb) (.n y)) = .bool (copI op x y)) ∧
+    (∀ wa wb x y, InRange (.sgn wa) (.n x) → InRange (.sgn wb) (.n y) →
+        vrel op (inj (.sgn wa) (.n x)) (inj (.sgn wb) (.n y)) = .bool (copI op x y)) ∧
+    (∀ w x y, op.isEq = true → InRange (.bv w) (.n x) → InRange (.bv w) (.n y) →
+        vrel op (inj (.bv w) (.n x)) (inj (.bv w) (.n y)) = .bool (copI op x y)) ∧
+    (∀ x y : Bool, op.isEq = true →
+        vrel op (.sl x) (.sl y) = .bool (copI op (Val.b x).num (Val.b y).num) ∧
+        vrel op (.bool x) (.bool y) = .bool (copI op (Val.b x).num (Val.b y).num)) := by
+  refine ⟨?_, ?_, ?_, ?_⟩
+  · rintro wa wb x y ⟨_, a0, a1⟩ ⟨_, b0, b1⟩
+    simp [vrel, inj, dec, enc_of_range a0 a1, enc_of_range b0 b1]
+  · rintro wa wb x y ⟨ha, a0, a1⟩ ⟨hb, b0, b1⟩
+    simp [vrel, inj, dec, sInt_enc_id ha a0 a1, sInt_enc_id hb b0 b1]
+  · rintro w x y he ⟨_, a0, a1⟩ ⟨_, b0, b1⟩
+    simp [vrel, inj, he, enc_of_range a0 a1, enc_of_range b0 b1]
+  · intro x y he
+    simp [vrel, he, Val.num]
+
+/-- comparisons with a Python int on either side (the front end reflects `k < a` into `a > k`) -/
+theorem C02.cmp_int_correct (op : COp) (k : Int) :
+    (∀ w x, InRange (.uns w) (.n x) → 0 ≤ k →
+        vrel op (inj (.uns w) (.n x)) (.int k) = .bool (copI op x k) ∧
+        vrel op.swap (inj (.uns w) (.n x)) (.int k) = .bool (copI op k x)) ∧
+    (∀ w x, InRange (.sgn w) (.n x) →
+        vrel op (inj (.sgn w) (.n x)) (.int k) = .bool (copI op x k) ∧
+        vrel op.swap (inj (.sgn w) (.n x)) (.int k) = .bool (copI op k x)) := by
   constructor
-  · rintro ⟨_, h0, h1⟩
+  · rintro w x ⟨_, a0, a1⟩ hk
+    have : ¬ k < 0 := by omega
+    simp [vrel, inj, enc_of_range a0 a1, this, copI_swap]
+  · rintro w x ⟨ha, a0, a1⟩
+    simp [vrel, inj, sInt_enc_id ha a0 a1, copI_swap]
+
+example : InRange (.sgn 4) (.n (-3)) ∧ COp.isEq .ne = true := by simp [InRange, COp.isEq]
+
+
+theorem C02.case_cmp (env : Env) (op : COp) (a b : Expr) (iha : Good env a) (ihb : Good env b) :
+    Good env (.cmp op a b) := by
+  intro t ht hd
+  simp only [typeOf] at ht
+  cases hta : typeOf a with
+  | error er => simp [hta] at ht
+  | ok ta =>
+  cases htb : typeOf b with
+  | error er => simp [hta, htb] at ht
+  | ok tb =>
+  simp only [hta, htb] at ht
+  simp only [defined, Bool.and_eq_true] at hd
+  obtain ⟨ra, ea⟩ := iha ta hta hd.1
+  obtain ⟨rb, eb⟩ := ihb tb htb hd.2
+  simp only [lower, evalSpec, hta, htb, tyOr]
+  cases ta <;> cases tb <;> simp only [cmpTy, ite_ok_iff] at ht
+  all_goals try (simp at ht; done)
+  · -- bit bit
+    obtain ⟨he, ht⟩ := ht; cases ht
+    obtain ⟨x, hx⟩ := inR_bit ra
+    obtain ⟨y, hy⟩ := inR_bit rb
+    simp only [evalV, ea, eb, hx, hy, inj]
+    exact ⟨trivial, ((C02.cmp_correct op).2.2.2 x y he).1⟩
+  · -- bool bool
+    obtain ⟨he, ht⟩ := ht; cases ht
+    obtain ⟨x, hx⟩ := inR_bool ra
+    obtain ⟨y, hy⟩ := inR_bool rb
+    simp only [evalV, ea, eb, hx, hy, inj]
+    exact ⟨trivial, ((C02.cmp_correct op).2.2.2 x y he).2⟩
+  · -- bv bv
+    obtain ⟨he, hw, ht⟩ := ht; cases ht; subst hw
+    obtain ⟨x, hx, _⟩ := inR_bv ra
+    obtain ⟨y, hy, _⟩ := inR_bv rb
+    rw [hx] at ra; rw [hy] at rb
+    simp only [evalV, ea, eb, hx, hy, Val.num]
+    exact ⟨trivial, (C02.cmp_correct op).2.2.1 _ x y he ra rb⟩
+  · -- uns uns
+    cases ht
+    obtain ⟨x, hx, _⟩ := inR_uns ra
+    obtain ⟨y, hy, _⟩ := inR_uns rb
+    rw [hx] at ra; rw [hy] at rb
+    simp only [evalV, ea, eb, hx, hy, Val.num]
+    exact ⟨trivial, (C02.cmp_correct op).1 _ _ x y ra rb⟩
+  · -- uns int
+    cases hib : intVal b with
+    | none => simp [hib] at ht
+    | some k =>
+      simp only [hib, ite_ok_iff] at ht
+      obtain ⟨hk, ht⟩ := ht; cases ht
+      have hbk := intVal_some hib; subst hbk
+      obtain ⟨x, hx, _⟩ := inR_uns ra
+      rw [hx] at ra
+      simp only [evalV, ea, lower, evalSpec, hx, Val.num]
+      exact ⟨trivial, ((C02.cmp_int_correct op k).1 _ x ra hk).1⟩
+  · -- sgn sgn
+    cases ht
+    obtain ⟨x, hx, _⟩ := inR_sgn ra
+    obtain ⟨y, hy, _⟩ := inR_sgn rb
+    rw [hx] at ra; rw [hy] at rb
+    simp only [evalV, ea, eb, hx, hy, Val.num]
+    exact ⟨trivial, (C02.cmp_correct op).2.1 _ _ x y ra rb⟩
+  · -- sgn int
+    cases hib : intVal b with
+    | none => simp [hib] at ht
+    | some k =>
+      simp only [hib] at ht
+      cases ht
+      have hbk := intVal_some hib; subst hbk
+      obtain ⟨x, hx, _⟩ := inR_sgn ra
+      rw [hx] at ra
+      simp only [evalV, ea, lower, evalSpec, hx, Val.num]
+      exact ⟨trivial, ((C02.cmp_int_correct op k).2 _ x ra).1⟩
+  · -- int uns
+    cases hia : intVal a with
+    | none => simp [hia] at ht
+    | some k =>
+      simp only [hia, ite_ok_iff] at ht
+      obtain ⟨hk, ht⟩ := ht; cases ht
+      have hak := intVal_some hia; subst hak
+      obtain ⟨y, hy, _⟩ := inR_uns rb
+      rw [hy] at rb
+      simp only [evalV, eb, lower, evalSpec, hy, Val.num]
+      exact ⟨trivial, ((C02.cmp_int_correct op k).1 _ y rb hk).2⟩
+  · -- int sgn
+    cases hia : intVal a with
+    | none => simp [hia] at ht
+    | some k =>
+      simp only [hia] at ht
+      cases ht
+      have hak := intVal_some hia; subst hak
+      obtain ⟨y, hy, _⟩ := inR_sgn rb
+      rw [hy] at rb
+      simp only [evalV, eb, lower, evalSpec, hy, Val.num]
+      exact ⟨trivial, ((C02.cmp_int_correct op k).2 _ y rb).2⟩
+
+
+/-! ### (3) shifts -/
+
+/-- `>>` is a logical shift for Unsigned and an arithmetic shift for Signed - for ALL values, negative ones
+    included: in both cases the floor division of the value by 2^n (`/` on `Int` is floor division for a positive
+    divisor), with the operand's type and width -/
+theorem C02.shr_logical_unsigned_arith_signed (w n : Nat) (x : Int) :
+    (InRange (.uns w) (.n x) → InRange (.uns w) (.n (x / 2 ^ n)) ∧
+        vshiftR (inj (.uns w) (.n x)) (.int n) = inj (.uns w) (.n (x / 2 ^ n))) ∧
+    (InRange (.sgn w) (.n x) → InRange (.sgn w) (.n (x / 2 ^ n)) ∧
+        vshiftR (inj (.sgn w) (.n x)) (.int n) = inj (.sgn w) (.n (x / 2 ^ n))) := by
+  have hS := p2pos n
+  have hS1 : (1 : Int) ≤ 2 ^ n := Int.add_one_le_iff.mpr hS |> fun h => by simpa using h
+  constructor
+  · rintro ⟨hw, h0, h1⟩
+    refine ⟨⟨hw, Int.ediv_nonneg h0 (le_of_lt hS), lt_of_le_of_lt (Int.ediv_le_self _ h0) h1⟩, ?_⟩
     simp [inj, vshiftR, enc_shr_nonneg h0 h1]
-  · rintro ⟨hw, _, h1⟩ h0
+  · rintro ⟨hw, hlo, hhi⟩
     have hh := p2half hw
-    have h1' : x < 2 ^ w := by linarith [p2pos (w - 1)]
-    have e1 := enc_of_range h0 h1'
-    have hlt : enc w x < 2 ^ (w - 1) := by
-      have : ((enc w x : Nat) : Int) < 2 ^ (w - 1) := by rw [e1]; exact h1
-      exact_mod_cast this
-    simp [inj, vshiftR, hlt, enc_shr_nonneg h0 h1']
+    have hhp := p2pos (w - 1)
+    have rng : -(2 ^ (w - 1)) ≤ x / 2 ^ n ∧ x / 2 ^ n < 2 ^ (w - 1) := by
+      constructor
+      · rw [Int.le_ediv_iff_mul_le hS]
+        nlinarith
+      · apply Int.ediv_lt_of_lt_mul hS
+        nlinarith
+    refine ⟨⟨hw, rng.1, rng.2⟩, ?_⟩
+    by_cases h0 : 0 ≤ x
+    · have h1' : x < 2 ^ w := by linarith
+      have e1 := enc_of_range h0 h1'
+      have hlt : enc w x < 2 ^ (w - 1) := by
+        have : ((enc w x : Nat) : Int) < 2 ^ (w - 1) := by rw [e1]; exact hhi
+        exact_mod_cast this
+      simp [inj, vshiftR, hlt, enc_shr_nonneg h0 h1']
+    · have hneg : x < 0 := by omega
+      have hc := enc_cast w x
+      have hmod : x % 2 ^ w = x + 2 ^ w :=
+        emod_eq_of (p2pos w) (q := -1) (by ring) (by linarith) (by linarith)
+      have hp : ((enc w x : Nat) : Int) = x + 2 ^ w := by rw [hc, hmod]
+      have hge : ¬ enc w x < 2 ^ (w - 1) := by
+        intro hl
+        have : ((enc w x : Nat) : Int) < 2 ^ (w - 1) := by exact_mod_cast hl
+        rw [hp] at this; linarith
+      have key := shr_sgn_neg (s := n) hw (enc_lt w x)
+      have hx : ((enc w x : Nat) : Int) - 2 ^ w = x := by rw [hp]; ring
+      rw [hx] at key
+      simp [inj, vshiftR, hge, key]
 
-example : InRange (.sgn 4) (.n 5) ∧ (0 : Int) ≤ 5 := by simp [InRange]
+example : InRange (.sgn 4) (.n (-7)) := by simp [InRange]
 
-/-- `<<` drops the bits shifted out on the left: multiplication by 2^n modulo 2^width (Unsigned) -/
-theorem C02.shl_wraps (w n : Nat) (x : Int) (hx : InRange (.uns w) (.n x)) :
-    vshiftL (inj (.uns w) (.n x)) (.int n) = inj (.uns w) (.n (wrapU w (x * 2 ^ n))) := by
-  obtain ⟨_, h0, h1⟩ := hx
-  have e1 := enc_of_range h0 h1
-  have : (enc w x * 2 ^ n) % 2 ^ w = enc w (x * 2 ^ n) := by
+/-- `<<` drops the bits shifted out: multiplication by 2^n wrapped into the operand's type (Unsigned and Signed) -/
+theorem C02.shl_correct (w n : Nat) (x : Int) :
+    (InRange (.uns w) (.n x) → vshiftL (inj (.uns w) (.n x)) (.int n) = inj (.uns w) (.n (wrapU w (x * 2 ^ n)))) ∧
+    (InRange (.sgn w) (.n x) → vshiftL (inj (.sgn w) (.n x)) (.int n) = inj (.sgn w) (.n (wrapS w (x * 2 ^ n)))) := by
+  have key : (enc w x * 2 ^ n) % 2 ^ w = enc w (x * 2 ^ n) := by
     have : (((enc w x * 2 ^ n) % 2 ^ w : Nat) : Int) = ((enc w (x * 2 ^ n) : Nat) : Int) := by
-      rw [enc_cast]; push_cast; rw [e1]
+      rw [enc_cast]; push_cast; rw [enc_cast]
+      rw [Int.mul_emod (x % 2 ^ w), Int.emod_emod_of_dvd _ (dvd_refl _), ← Int.mul_emod]
     exact_mod_cast this
-  simp [inj, vshiftL, this, enc_wrapU]
+  constructor
+  · intro _; simp [inj, vshiftL, key, enc_wrapU]
+  · intro _; simp [inj, vshiftL, key, enc_wrapS]
+
+
+theorem C02.case_shl (env : Env) (a n : Expr) (iha : Good env a) (ihn : Good env n) : Good env (.shl a n) := by
+  intro t ht hd
+  simp only [typeOf] at ht
+  cases hta : typeOf a with
+  | error er => simp [hta] at ht
+  | ok ta =>
+  cases htn : typeOf n with
+  | error er => simp [hta, htn] at ht
+  | ok tn =>
+  simp only [hta, htn] at ht
+  simp only [defined, Bool.and_eq_true] at hd
+  obtain ⟨ra, ea⟩ := iha ta hta hd.1
+  obtain ⟨amt, hl, _, hamt, rfl, w, hw⟩ := shift_amt env a n ta tn t ihn htn hd.2 ht
+  rw [hl]
+  simp only [evalV, ea, hamt, evalSpec, hta, tyOr]
+  rcases hw with rfl | rfl
+  · obtain ⟨x, hx, hw1, _⟩ := inR_uns ra
+    rw [hx] at ra ⊢
+    exact ⟨inRange_wrapU hw1 _, (C02.shl_correct w _ x).1 ra⟩
+  · obtain ⟨x, hx, hw1, _⟩ := inR_sgn ra
+    rw [hx] at ra ⊢
+    exact ⟨inRange_wrapS hw1 _, (C02.shl_correct w _ x).2 ra⟩
+
+theorem C02.case_shr (env : Env) (a n : Expr) (iha : Good env a) (ihn : Good env n) : Good env (.shr a n) := by
+  intro t ht hd
+  simp only [typeOf] at ht
+  cases hta : typeOf a with
+  | error er => simp [hta] at ht
+  | ok ta =>
+  cases htn : typeOf n with
+  | error er => simp [hta, htn] at ht
+  | ok tn =>
+  simp only [hta, htn] at ht
+  simp only [defined, Bool.and_eq_true] at hd
+  obtain ⟨ra, ea⟩ := iha ta hta hd.1
+  obtain ⟨amt, _, hl, hamt, rfl, w, hw⟩ := shift_amt env a n ta tn t ihn htn hd.2 ht
+  rw [hl]
+  simp only [evalV, ea, hamt, evalSpec]
+  rcases hw with rfl | rfl
+  · obtain ⟨x, hx, _⟩ := inR_uns ra
+    rw [hx] at ra ⊢
+    exact (C02.shr_logical_unsigned_arith_signed w _ x).1 ra
+  · obtain ⟨x, hx, _⟩ := inR_sgn ra
+    rw [hx] at ra ⊢
+    exact (C02.shr_logical_unsigned_arith_signed w _ x).2 ra
+
+
+/-! ### (4) concatenation -/
+/-- `a @ b` (operands Bit / BitVector / Unsigned / Signed, numeric operands coerced with `.bitvector` =
+    `std_logic_vector(.)`): a BitVector of the summed width whose most significant bits are the pattern of `a` -/
+theorem C02.concat_correct (va vb : VVal) (wa pa wb pb : Nat) (ha : IsCat va wa pa) (hb : IsCat vb wb pb)
+    (la : pa < 2 ^ wa) (lb : pb < 2 ^ wb) :
+    vbin .cat va vb = inj (.bv (wa + wb)) (.n ((pa : Int) * 2 ^ wb + pb)) ∧
+    InRange (.bv (wa + wb)) (.n ((pa : Int) * 2 ^ wb + pb)) ∨ wa + wb = 0 := by
+  by_cases h0 : wa + wb = 0
+  · exact Or.inr h0
+  left
+  have hlt : pa * 2 ^ wb + pb < 2 ^ (wa + wb) := by
+    rw [pow_add]
+    calc pa * 2 ^ wb + pb < pa * 2 ^ wb + 2 ^ wb := by omega
+      _ = (pa + 1) * 2 ^ wb := by ring
+      _ ≤ 2 ^ wa * 2 ^ wb := Nat.mul_le_mul_right _ la
+  have hc : ((pa : Int) * 2 ^ wb + pb) = ((pa * 2 ^ wb + pb : Nat) : Int) := by push_cast; ring
+  constructor
+  · rw [vbin_cat ha hb]; simp only [inj]; rw [hc, enc_natCast hlt]
+  · refine ⟨by omega, ?_, ?_⟩
+    · rw [hc]; exact Int.natCast_nonneg _
+    · rw [hc]; exact_mod_cast hlt
+
+
+theorem C02.case_concat (env : Env) (a b : Expr) (iha : Good env a) (ihb : Good env b) : Good env (.concat a b) := by
+  intro t ht hd
+  simp only [typeOf] at ht
+  cases hta : typeOf a with
+  | error er => simp [hta] at ht
+  | ok ta =>
+  cases htb : typeOf b with
+  | error er => simp [hta, htb] at ht
+  | ok tb =>
+  simp only [hta, htb] at ht
+  simp only [defined, Bool.and_eq_true] at hd
+  cases hwa : catW ta with
+  | none => simp [hwa] at ht
+  | some wa =>
+  cases hwb : catW tb with
+  | none => simp [hwa, hwb] at ht
+  | some wb =>
+  simp only [hwa, hwb, Except.ok.injEq] at ht
+  subst ht
+  obtain ⟨pa, ca, la, pca, ewa, h1a⟩ := cat_operand env a ta wa iha hta hd.1 hwa
+  obtain ⟨pb, cb, lb, pcb, ewb, h1b⟩ := cat_operand env b tb wb ihb htb hd.2 hwb
+  rw [lower_concat_eq]
+  rcases C02.concat_correct _ _ wa pa wb pb ca cb la lb with ⟨hv, hr⟩ | h0
+  · simp only [evalV, evalSpec, hta, htb, tyOr] at hv ⊢
+    rw [← pca, ← pcb, ← ewb]
+    exact ⟨hr, hv⟩
+  · omega
+
+
+/-! ### (5) index / slice / views / abs / neg -/
+
+/-- constant index, constant slice and run-time index of a vector of any kind: bit `i` of the pattern /
+    bits `hi..lo` of the pattern as a BitVector -/
+theorem C02.index_slice_correct (k : VK) (w p : Nat) (hp : p < 2 ^ w) :
+    (∀ i : Nat, i < w → vindex (.vec k w p) (.int i) = inj .bit (.b (((p : Int) / 2 ^ i) % 2 == 1))) ∧
+    (∀ hi lo : Nat, lo ≤ hi → hi < w →
+        vconv .slv (vslice (.vec k w p) hi lo) = inj (.bv (hi - lo + 1)) (.n (((p : Int) / 2 ^ lo) % 2 ^ (hi - lo + 1))) ∧
+        InRange (.bv (hi - lo + 1)) (.n (((p : Int) / 2 ^ lo) % 2 ^ (hi - lo + 1)))) := by
+  constructor
+  · intro i hi
+    have : (i : Int) < w := by exact_mod_cast hi
+    simp [vindex, inj, this, bit_test_cast]
+  · intro hi lo h1 h2
+    have hm : (p / 2 ^ lo) % 2 ^ (hi - lo + 1) < 2 ^ (hi - lo + 1) := Nat.mod_lt _ (Nat.two_pow_pos _)
+    have hc : ((p : Int) / 2 ^ lo) % 2 ^ (hi - lo + 1) = (((p / 2 ^ lo) % 2 ^ (hi - lo + 1) : Nat) : Int) := by
+      push_cast; rfl
+    constructor
+    · simp only [vslice, h1, h2, and_self, if_true, vconv, inj]
+      rw [hc, enc_natCast hm]
+    · refine ⟨by omega, ?_, ?_⟩
+      · rw [hc]; exact Int.natCast_nonneg _
+      · rw [hc]; exact_mod_cast hm
+
+example : (5 : Nat) < 2 ^ 3 := by decide
+
+/-- the views `.signed` `.unsigned` `.bitvector` keep the pattern and reinterpret it -/
+theorem C02.view_correct (k : VK) (w p : Nat) (hw : 1 ≤ w) (hp : p < 2 ^ w) :
+    (vconv .sgn (.vec k w p) = inj (.sgn w) (.n (wrapS w p)) ∧ InRange (.sgn w) (.n (wrapS w p))) ∧
+    (vconv .uns (.vec k w p) = inj (.uns w) (.n p) ∧ InRange (.uns w) (.n (p : Int))) ∧
+    (vconv .slv (.vec k w p) = inj (.bv w) (.n p) ∧ InRange (.bv w) (.n (p : Int))) := by
+  have hpI : (p : Int) < 2 ^ w := by exact_mod_cast hp
+  refine ⟨⟨?_, inRange_wrapS hw _⟩, ⟨?_, hw, Int.natCast_nonneg _, hpI⟩, ⟨?_, hw, Int.natCast_nonneg _, hpI⟩⟩
+  · simp [vconv, inj, enc_wrapS, enc_natCast hp]
+  · simp [vconv, inj, enc_natCast hp]
+  · simp [vconv, inj, enc_natCast hp]
+
+/-- `abs` / unary minus on Signed (wrap: only the minimum value), unary minus on Unsigned in the printed form
+    `(0) - (x)` (two's complement negation modulo 2^w) -/
+theorem C02.abs_neg_correct (w : Nat) (x : Int) :
+    (InRange (.sgn w) (.n x) → vabs (inj (.sgn w) (.n x)) = inj (.sgn w) (.n (wrapS w (Int.natAbs x)))) ∧
+    (InRange (.sgn w) (.n x) → vneg (inj (.sgn w) (.n x)) = inj (.sgn w) (.n (wrapS w (-x)))) ∧
+    (InRange (.uns w) (.n x) → vbin .sub (.int 0) (inj (.uns w) (.n x)) = inj (.uns w) (.n (wrapU w (-x)))) := by
+  refine ⟨?_, ?_, ?_⟩
+  · rintro ⟨hw, h0, h1⟩
+    simp [vabs, inj, sInt_enc_id hw h0 h1, enc_wrapS]
+  · rintro ⟨hw, h0, h1⟩
+    simp [vneg, inj, sInt_enc_id hw h0 h1, enc_wrapS]
+  · rintro ⟨hw, h0, h1⟩
+    have e0 : enc w 0 = 0 := by simp [enc]
+    simp [vbin, inj, arithVecInt, VBin.isDiv, dec, nsOp, enc_of_range h0 h1, enc_wrapU, e0]
+
+
+theorem C02.case_index (env : Env) (a : Expr) (i : Nat) (iha : Good env a) : Good env (.index a i) := by
+  intro t ht hd
+  simp only [typeOf] at ht
+  cases hta : typeOf a with
+  | error er => simp [hta] at ht
+  | ok ta =>
+  simp only [hta, ite_ok_iff, Except.ok.injEq] at ht
+  obtain ⟨hv, hi, rfl⟩ := ht
+  simp only [defined] at hd
+  obtain ⟨ra, ea⟩ := iha ta hta hd
+  obtain ⟨x, p, hx, iv, pl, pc, _, _⟩ := vecView hv ra
+  simp only [lower, evalV, ea, iv, evalSpec, hta, tyOr]
+  simp only [hx, Val.num, ← pc]
+  exact ⟨trivial, (C02.index_slice_correct _ _ p pl).1 i hi⟩
+
+theorem C02.case_slice (env : Env) (a : Expr) (hi lo : Nat) (iha : Good env a) : Good env (.slice a hi lo) := by
+  intro t ht hd
+  simp only [typeOf] at ht
+  cases hta : typeOf a with
+  | error er => simp [hta] at ht
+  | ok ta =>
+  simp only [hta, ite_ok_iff, Except.ok.injEq] at ht
+  obtain ⟨hv, ⟨h1, h2⟩, rfl⟩ := ht
+  simp only [defined] at hd
+  obtain ⟨ra, ea⟩ := iha ta hta hd
+  obtain ⟨x, p, hx, iv, pl, pc, _, _⟩ := vecView hv ra
+  have key := (C02.index_slice_correct (vkOf ta) _ p pl).2 hi lo h1 h2
+  have hl : evalV (lower (.slice a hi lo)) env = vconv .slv (vslice (.vec (vkOf ta) ta.width p) hi lo) := by
+    cases ta <;> simp [Ty.isVec] at hv <;>
+      simp [lower, hta, tyOr, evalV, ea, iv, vconv_vconv]
+  rw [hl]
+  simp only [evalSpec, hta, tyOr, hx, Val.num, ← pc]
+  exact ⟨key.2, key.1⟩
+
+theorem C02.case_indexRt (env : Env) (a n : Expr) (iha : Good env a) (ihn : Good env n) : Good env (.indexRt a n) := by
+  intro t ht hd
+  simp only [typeOf] at ht
+  cases hta : typeOf a with
+  | error er => simp [hta] at ht
+  | ok ta =>
+  cases htn : typeOf n with
+  | error er => simp [hta, htn] at ht
+  | ok tn =>
+  simp only [hta, htn] at ht
+  simp only [defined, Bool.and_eq_true] at hd
+  cases tn <;> simp only [ite_ok_iff, Except.ok.injEq] at ht
+  all_goals try (simp at ht; done)
+  rename_i k
+  obtain ⟨hv, hk, rfl⟩ := ht
+  obtain ⟨ra, ea⟩ := iha ta hta hd.1
+  obtain ⟨rn, en⟩ := ihn _ htn hd.2
+  obtain ⟨x, p, hx, iv, pl, pc, _, _⟩ := vecView hv ra
+  obtain ⟨y, hy, _, y0, y1⟩ := inR_uns rn
+  have ey := enc_of_range y0 y1
+  have hlt : enc k y < ta.width := lt_of_lt_of_le (enc_lt k y) hk
+  have hty : y.toNat = enc k y := by
+    have : ((y.toNat : Nat) : Int) = ((enc k y : Nat) : Int) := by rw [Int.toNat_of_nonneg y0, ey]
+    exact_mod_cast this
+  have hn : vtoInteger (inj (.uns k) (evalSpec n env)) = .int (enc k y) := by simp [hy, inj, vtoInteger]
+  simp only [lower, evalV, ea, iv, en, hn, evalSpec, hta, tyOr]
+  simp only [hx, hy, Val.num, ← pc, hty]
+  exact ⟨trivial, (C02.index_slice_correct _ _ p pl).1 _ hlt⟩
+
+theorem C02.case_asSgn (env : Env) (a : Expr) (iha : Good env a) : Good env (.asSgn a) := by
+  intro t ht hd
+  simp only [typeOf] at ht
+  cases hta : typeOf a with
+  | error er => simp [hta] at ht
+  | ok ta =>
+  simp only [hta, ite_ok_iff, Except.ok.injEq] at ht
+  obtain ⟨hv, rfl⟩ := ht
+  simp only [defined] at hd
+  obtain ⟨ra, ea⟩ := iha ta hta hd
+  obtain ⟨x, p, hx, iv, pl, pc, hw, _⟩ := vecView hv ra
+  have key := (C02.view_correct (vkOf ta) _ p hw pl).1
+  have hl : evalV (lower (.asSgn a)) env = vconv .sgn (.vec (vkOf ta) ta.width p) := by
+    cases ta <;> simp [Ty.isVec] at hv <;>
+      simp [lower, hta, tyOr, evalV, ea, iv, vconv_vconv, vconv, vkOf]
+  rw [hl]
+  simp only [evalSpec, hta, tyOr, hx, Val.num, ← pc]
+  exact ⟨key.2, key.1⟩
+
+theorem C02.case_asUns (env : Env) (a : Expr) (iha : Good env a) : Good env (.asUns a) := by
+  intro t ht hd
+  simp only [typeOf] at ht
+  cases hta : typeOf a with
+  | error er => simp [hta] at ht
+  | ok ta =>
+  simp only [hta, ite_ok_iff, Except.ok.injEq] at ht
+  obtain ⟨hv, rfl⟩ := ht
+  simp only [defined] at hd
+  obtain ⟨ra, ea⟩ := iha ta hta hd
+  obtain ⟨x, p, hx, iv, pl, pc, hw, _⟩ := vecView hv ra
+  have key := (C02.view_correct (vkOf ta) _ p hw pl).2.1
+  have hl : evalV (lower (.asUns a)) env = vconv .uns (.vec (vkOf ta) ta.width p) := by
+    cases ta <;> simp [Ty.isVec] at hv <;>
+      simp [lower, hta, tyOr, evalV, ea, iv, vconv_vconv, vconv, vkOf]
+  rw [hl]
+  simp only [evalSpec, hta, tyOr, hx, Val.num, ← pc]
+  exact ⟨key.2, key.1⟩
+
+theorem C02.case_asBv (env : Env) (a : Expr) (iha : Good env a) : Good env (.asBv a) := by
+  intro t ht hd
+  simp only [typeOf] at ht
+  cases hta : typeOf a with
+  | error er => simp [hta] at ht
+  | ok ta =>
+  simp only [hta, ite_ok_iff, Except.ok.injEq] at ht
+  obtain ⟨hv, rfl⟩ := ht
+  simp only [defined] at hd
+  obtain ⟨ra, ea⟩ := iha ta hta hd
+  obtain ⟨x, p, hx, iv, pl, pc, hw, _⟩ := vecView hv ra
+  have key := (C02.view_correct (vkOf ta) _ p hw pl).2.2
+  have hl : evalV (lower (.asBv a)) env = vconv .slv (.vec (vkOf ta) ta.width p) := by
+    cases ta <;> simp [Ty.isVec] at hv <;>
+      simp [lower, hta, tyOr, evalV, ea, iv, vconv_vconv, vconv, vkOf]
+  rw [hl]
+  simp only [evalSpec, hta, tyOr, hx, Val.num, ← pc]
+  exact ⟨key.2, key.1⟩
+
+theorem C02.case_abs (env : Env) (a : Expr) (iha : Good env a) : Good env (.abs a) := by
+  intro t ht hd
+  simp only [typeOf] at ht
+  cases hta : typeOf a with
+  | error er => simp [hta] at ht
+  | ok ta =>
+  simp only [defined] at hd
+  obtain ⟨ra, ea⟩ := iha ta hta hd
+  cases ta <;> simp [hta] at ht
+  subst ht
+  obtain ⟨x, hx, hw, _⟩ := inR_sgn ra
+  rw [hx] at ra
+  simp only [lower, evalV, ea, hx, evalSpec, hta, tyOr, wrap, Val.num]
+  exact ⟨inRange_wrapS hw _, (C02.abs_neg_correct _ x).1 ra⟩
+
+theorem C02.case_neg (env : Env) (a : Expr) (iha : Good env a) : Good env (.neg a) := by
+  intro t ht hd
+  simp only [typeOf] at ht
+  cases hta : typeOf a with
+  | error er => simp [hta] at ht
+  | ok ta =>
+  simp only [defined] at hd
+  obtain ⟨ra, ea⟩ := iha ta hta hd
+  cases ta <;> simp [hta] at ht <;> subst ht
+  · obtain ⟨x, hx, hw, _⟩ := inR_uns ra
+    rw [hx] at ra
+    simp only [lower, hta, tyOr, evalV, ea, hx, evalSpec, wrap, Val.num]
+    exact ⟨inRange_wrapU hw _, (C02.abs_neg_correct _ x).2.2 ra⟩
+  · obtain ⟨x, hx, hw, _⟩ := inR_sgn ra
+    rw [hx] at ra
+    simp only [lower, hta, tyOr, evalV, ea, hx, evalSpec, wrap, Val.num]
+    exact ⟨inRange_wrapS hw _, (C02.abs_neg_correct _ x).2.1 ra⟩
+
+
+/-! ### (6) boolean operators -/
+
+/-- the cast of an operand to `boolean` that the back end prints (`x = '1'`, `(x /= 0)`, `(x /= "00..0")`, nothing
+    for a boolean) yields the truth value of the operand -/
+theorem C02.truth_correct (env : Env) (A : VExpr) (t : Ty) (v : Val) (ht : truthy t = true)
+    (hr : InRange t v) (he : evalV A env = inj t v) :
+    evalV (toBool t A) env = .bool v.tru := by
+  cases t <;> simp [truthy] at ht
+  · obtain ⟨b, rfl⟩ := inR_bit hr
+    simp [CohdlVerif.C02.toBool, evalV, he, inj, vrel, COp.isEq, copI, Val.tru]
+    cases b <;> simp
+  · obtain ⟨b, rfl⟩ := inR_bool hr
+    simp [CohdlVerif.C02.toBool, he, inj, Val.tru]
+  · obtain ⟨x, rfl, _, h0, h1⟩ := inR_bv hr
+    have e := enc_of_range h0 h1
+    simp [CohdlVerif.C02.toBool, evalV, he, inj, vrel, COp.isEq, copI, Val.tru, e]
+  · obtain ⟨x, rfl, _, h0, h1⟩ := inR_uns hr
+    have e := enc_of_range h0 h1
+    simp [CohdlVerif.C02.toBool, evalV, he, inj, vrel, copI, Val.tru, e]
+  · obtain ⟨x, rfl, hw, h0, h1⟩ := inR_sgn hr
+    simp [CohdlVerif.C02.toBool, evalV, he, inj, vrel, copI, Val.tru, sInt_enc_id hw h0 h1]
+
+/-- `not` / `and` / `or` on booleans (operands after the cast of `C02.truth_correct`; `any([..])` / `all([..])` and
+    chained comparisons are folds of these) -/
+theorem C02.boolop_correct (x y : Bool) :
+    vnot (.bool x) = .bool (!x) ∧ vbin .and (.bool x) (.bool y) = .bool (x && y) ∧
+    vbin .or (.bool x) (.bool y) = .bool (x || y) := by
+  simp [vnot, vbin, lopVB]
+
+
+theorem C02.case_truth (env : Env) (a : Expr) (iha : Good env a) : Good env (.truth a) := by
+  intro t ht hd
+  simp only [typeOf] at ht
+  cases hta : typeOf a with
+  | error er => simp [hta] at ht
+  | ok ta =>
+  simp only [hta, ite_ok_iff, Except.ok.injEq] at ht
+  obtain ⟨hv, rfl⟩ := ht
+  simp only [defined] at hd
+  obtain ⟨ra, ea⟩ := iha ta hta hd
+  simp only [lower, hta, tyOr, evalSpec, inj]
+  exact ⟨trivial, C02.truth_correct env _ ta _ hv ra ea⟩
+
+theorem C02.case_lnot (env : Env) (a : Expr) (iha : Good env a) : Good env (.lnot a) := by
+  intro t ht hd
+  simp only [typeOf] at ht
+  cases hta : typeOf a with
+  | error er => simp [hta] at ht
+  | ok ta =>
+  simp only [hta, ite_ok_iff, Except.ok.injEq] at ht
+  obtain ⟨hv, rfl⟩ := ht
+  simp only [defined] at hd
+  obtain ⟨ra, ea⟩ := iha ta hta hd
+  simp only [lower, hta, tyOr, evalSpec, inj, evalV, C02.truth_correct env _ ta _ hv ra ea]
+  exact ⟨trivial, (C02.boolop_correct _ true).1⟩
+
+theorem C02.case_land (env : Env) (a b : Expr) (iha : Good env a) (ihb : Good env b) : Good env (.land a b) := by
+  intro t ht hd
+  simp only [typeOf] at ht
+  cases hta : typeOf a with
+  | error er => simp [hta] at ht
+  | ok ta =>
+  cases htb : typeOf b with
+  | error er => simp [hta, htb] at ht
+  | ok tb =>
+  simp only [hta, htb, ite_ok_iff, Except.ok.injEq, Bool.and_eq_true] at ht
+  obtain ⟨⟨hva, hvb⟩, rfl⟩ := ht
+  simp only [defined, Bool.and_eq_true] at hd
+  obtain ⟨ra, ea⟩ := iha ta hta hd.1
+  obtain ⟨rb, eb⟩ := ihb tb htb hd.2
+  simp only [lower, hta, htb, tyOr, evalSpec, inj, evalV, C02.truth_correct env _ ta _ hva ra ea,
+    C02.truth_correct env _ tb _ hvb rb eb]
+  exact ⟨trivial, (C02.boolop_correct _ _).2.1⟩
+
+theorem C02.case_lor (env : Env) (a b : Expr) (iha : Good env a) (ihb : Good env b) : Good env (.lor a b) := by
+  intro t ht hd
+  simp only [typeOf] at ht
+  cases hta : typeOf a with
+  | error er => simp [hta] at ht
+  | ok ta =>
+  cases htb : typeOf b with
+  | error er => simp [hta, htb] at ht
+  | ok tb =>
+  simp only [hta, htb, ite_ok_iff, Except.ok.injEq, Bool.and_eq_true] at ht
+  obtain ⟨⟨hva, hvb⟩, rfl⟩ := ht
+  simp only [defined, Bool.and_eq_true] at hd
+  obtain ⟨ra, ea⟩ := iha ta hta hd.1
+  obtain ⟨rb, eb⟩ := ihb tb htb hd.2
+  simp only [lower, hta, htb, tyOr, evalSpec, inj, evalV, C02.truth_correct env _ ta _ hva ra ea,
+    C02.truth_correct env _ tb _ hvb rb eb]
+  exact ⟨trivial, (C02.boolop_correct _ _).2.2⟩
+
+
+/-! ### (6) if-expression and select_with -/
+/-- if-expression (`with c select .. when true, .. when others`) and one `select_with` entry
+    (`with arg select e when key, rest when others`): the selected branch, both branches of the same type -/
+theorem C02.select_correct (env : Env) (t : Ty) (ve vr : Val) (he : InRange t ve) (hr : InRange t vr) :
+    (∀ (C A B : VExpr) (c : Bool), evalV C env = .bool c → evalV A env = inj t ve → evalV B env = inj t vr →
+        evalV (.ite C A B) env = inj t (if c then ve else vr)) ∧
+    (∀ (targ : Ty) (va : Val) (key : Int) (ARG E R : VExpr), (targ.isVec || targ == .bit) = true →
+        InRange targ va → fits targ key = true → evalV ARG env = inj targ va →
+        evalV E env = inj t ve → evalV R env = inj t vr →
+        evalV (.sel ARG (litV targ key) E R) env = inj t (if va.num == key then ve else vr)) := by
+  constructor
+  · intro C A B c hc ha hb
+    simp only [evalV, hc, ha, hb, inj_sameType he hr, if_true]
+    cases c <;> rfl
+  · intro targ va key ARG E R hk hra hf harg hE hR
+    obtain ⟨s1, s2⟩ := sel_key env targ va key hk hra hf
+    have n1 := inj_ne_err hra
+    have n2 := inj_ne_err he
+    simp only [evalV, harg, hE, hR, s1, s2, inj_sameType he hr, Bool.true_and]
+    have b1 : (inj targ va != VVal.err) = true := by simpa using n1
+    have b2 : (inj t ve != VVal.err) = true := by simpa using n2
+    rw [b1, b2]
+    cases va.num == key <;> rfl
+
+
+theorem C02.case_ite (env : Env) (c a b : Expr) (ihc : Good env c) (iha : Good env a) (ihb : Good env b) :
+    Good env (.ite c a b) := by
+  intro t ht hd
+  simp only [typeOf] at ht
+  cases htc : typeOf c with
+  | error er => simp [htc] at ht
+  | ok tc =>
+  cases hta : typeOf a with
+  | error er => simp [htc, hta] at ht
+  | ok ta =>
+  cases htb : typeOf b with
+  | error er => simp [htc, hta, htb] at ht
+  | ok tb =>
+  simp only [htc, hta, htb, ite_ok_iff, Except.ok.injEq] at ht
+  obtain ⟨hvc, ⟨rfl, _⟩, rfl⟩ := ht
+  simp only [defined, Bool.and_eq_true] at hd
+  obtain ⟨rc, ec⟩ := ihc tc htc hd.1.1
+  obtain ⟨ra, ea⟩ := iha _ hta hd.1.2
+  obtain ⟨rb, eb⟩ := ihb _ htb hd.2
+  have hC := C02.truth_correct env _ tc _ hvc rc ec
+  have key := (C02.select_correct env _ _ _ ra rb).1 _ _ _ _ hC ea eb
+  simp only [lower, htc, tyOr, evalSpec]
+  rw [key]
+  refine ⟨?_, ?_⟩ <;> cases (evalSpec c env).tru <;> simp [ra, rb]
+
+theorem C02.case_sel (env : Env) (arg : Expr) (key : Int) (e rest : Expr) (iharg : Good env arg) (ihe : Good env e)
+    (ihr : Good env rest) : Good env (.sel arg key e rest) := by
+  intro t ht hd
+  simp only [typeOf] at ht
+  cases htg : typeOf arg with
+  | error er => simp [htg] at ht
+  | ok targ =>
+  cases hte : typeOf e with
+  | error er => simp [htg, hte] at ht
+  | ok te =>
+  cases htr : typeOf rest with
+  | error er => simp [htg, hte, htr] at ht
+  | ok tr =>
+  simp only [htg, hte, htr, ite_ok_iff, Except.ok.injEq] at ht
+  obtain ⟨hk, hf, ⟨rfl, _⟩, rfl⟩ := ht
+  simp only [defined, Bool.and_eq_true] at hd
+  obtain ⟨rg, eg⟩ := iharg targ htg hd.1.1
+  obtain ⟨re, ee⟩ := ihe _ hte hd.1.2
+  obtain ⟨rr, er⟩ := ihr _ htr hd.2
+  have hsel := (C02.select_correct env _ _ _ re rr).2 targ _ key _ _ _ hk rg hf eg ee er
+  simp only [lower, htg, tyOr, evalSpec]
+  rw [hsel]
+  refine ⟨?_, ?_⟩ <;> cases ((evalSpec arg env).num == key) <;> simp [re, rr]
+
+
+/-! ### induction cases: ports, typed constants, Python ints, arithmetic, resize -/
+
+theorem C02.case_port (env : Env) (i : Nat) (t : Ty) : Good env (.port i t) := by
+  intro t' ht _
+  cases t <;> simp [typeOf, ite_ok_iff] at ht
+  · subst ht; simp [evalSpec, readPort, InRange, lower, evalV]
+  · obtain ⟨hw, rfl⟩ := ht
+    refine ⟨?_, by simp [evalSpec, lower, evalV]⟩
+    simp only [evalSpec, readPort, wrap]
+    exact ⟨hw, (wrapU_range _ _).1, (wrapU_range _ _).2⟩
+  · obtain ⟨hw, rfl⟩ := ht
+    refine ⟨?_, by simp [evalSpec, lower, evalV]⟩
+    simp only [evalSpec, readPort, wrap]
+    exact inRange_wrapU hw _
+  · obtain ⟨hw, rfl⟩ := ht
+    refine ⟨?_, by simp [evalSpec, lower, evalV]⟩
+    simp only [evalSpec, readPort, wrap]
+    exact inRange_wrapS hw _
+
+theorem C02.case_lit (env : Env) (t : Ty) (v : Int) : Good env (.lit t v) := by
+  intro t' ht _
+  cases t <;> simp [typeOf, ite_ok_iff] at ht
+  · obtain ⟨_, rfl⟩ := ht
+    simp [evalSpec, InRange, lower, litV, evalV, inj]
+  · obtain ⟨hw, hf, rfl⟩ := ht
+    simp only [fits, Bool.and_eq_true, decide_eq_true_eq] at hf
+    exact ⟨⟨hw, hf.1, hf.2⟩, by simp [evalSpec, lower, litV, evalV, inj, vkOf, Ty.width]⟩
+  · obtain ⟨hw, hf, rfl⟩ := ht
+    simp only [fits, Bool.and_eq_true, decide_eq_true_eq] at hf
+    exact ⟨⟨hw, hf.1, hf.2⟩, by simp [evalSpec, lower, litV, evalV, inj, vkOf, Ty.width]⟩
+  · obtain ⟨hw, hf, rfl⟩ := ht
+    simp only [fits, Bool.and_eq_true, decide_eq_true_eq] at hf
+    exact ⟨⟨hw, hf.1, hf.2⟩, by simp [evalSpec, lower, litV, evalV, inj, vkOf, Ty.width]⟩
+
+theorem C02.case_intc (env : Env) (k : Int) : Good env (.intc k) := by
+  intro t' ht _
+  simp [typeOf] at ht; subst ht
+  simp [evalSpec, InRange, lower, evalV, inj]
+
+theorem C02.case_arith (env : Env) (op : AOp) (a b : Expr) (iha : Good env a) (ihb : Good env b) :
+    Good env (.arith op a b) := by
+  intro t ht hd
+  simp only [typeOf] at ht
+  cases hta : typeOf a with
+  | error er => simp [hta] at ht
+  | ok ta =>
+  cases htb : typeOf b with
+  | error er => simp [hta, htb] at ht
+  | ok tb =>
+  simp only [hta, htb] at ht
+  simp only [defined, Bool.and_eq_true] at hd
+  obtain ⟨⟨hda, hdb⟩, hdz⟩ := hd
+  obtain ⟨ra, ea⟩ := iha ta hta hda
+  obtain ⟨rb, eb⟩ := ihb tb htb hdb
+  have hty : typeOf (.arith op a b) = .ok t := by simp only [typeOf, hta, htb]; exact ht
+  have hdiv : isDivOp op → (evalSpec b env).num ≠ 0 := by
+    intro h; rcases h with rfl | rfl | rfl <;> simpa using hdz
+  simp only [lower, evalV, ea, eb, evalSpec, hty, tyOr]
+  cases hva : evalSpec a env with
+  | b xa => cases ta <;> cases tb <;> simp_all [arithTy, InRange]
+  | n xa =>
+  cases hvb : evalSpec b env with
+  | b xb => cases ta <;> cases tb <;> simp_all [arithTy, InRange]
+  | n xb =>
+  rw [hva] at ra; rw [hvb] at rb hdiv
+  simp only [Val.num] at hdiv ⊢
+  cases ta <;> cases tb <;> simp only [arithTy] at ht
+  all_goals try (simp at ht; done)
+  · -- uns uns
+    rename_i wa wb
+    cases ht
+    exact ⟨inRange_wrapU (arithVV_pos op ra.1 rb.1) _, C02.arith_uns_uns op wa wb xa xb ra rb hdiv⟩
+  · -- uns int
+    rename_i w
+    cases hib : intVal b with
+    | none => simp [hib] at ht
+    | some k =>
+      simp only [hib, ite_ok_iff] at ht
+      obtain ⟨hf, ht⟩ := ht
+      cases ht
+      have hbk := intVal_some hib
+      subst hbk
+      simp only [evalSpec] at hvb
+      cases hvb
+      exact ⟨inRange_wrapU (arithVI_pos op ra.1) _, C02.arith_uns_int op w xa _ ra hf hdiv⟩
+  · -- sgn sgn
+    rename_i wa wb
+    cases ht
+    exact ⟨inRange_wrapS (arithVV_pos op ra.1 rb.1) _, C02.arith_sgn_sgn op wa wb xa xb ra rb hdiv⟩
+  · -- sgn int
+    rename_i w
+    cases hib : intVal b with
+    | none => simp [hib] at ht
+    | some k =>
+      simp only [hib, ite_ok_iff] at ht
+      obtain ⟨hf, ht⟩ := ht
+      cases ht
+      have hbk := intVal_some hib
+      subst hbk
+      simp only [evalSpec] at hvb
+      cases hvb
+      exact ⟨inRange_wrapS (arithVI_pos op ra.1) _, C02.arith_sgn_int op w xa _ ra hf hdiv⟩
+  · -- int uns
+    rename_i w
+    cases hia : intVal a with
+    | none => simp [hia] at ht
+    | some k =>
+      simp only [hia, ite_ok_iff] at ht
+      obtain ⟨hf, ht⟩ := ht
+      cases ht
+      have hak := intVal_some hia
+      subst hak
+      simp only [evalSpec] at hva
+      cases hva
+      exact ⟨inRange_wrapU (arithVI_pos op rb.1) _, C02.arith_int_uns op w xb _ rb hf hdiv⟩
+  · -- int sgn
+    rename_i w
+    cases hia : intVal a with
+    | none => simp [hia] at ht
+    | some k =>
+      simp only [hia, ite_ok_iff] at ht
+      obtain ⟨hf, ht⟩ := ht
+      cases ht
+      have hak := intVal_some hia
+      subst hak
+      simp only [evalSpec] at hva
+      cases hva
+      exact ⟨inRange_wrapS (arithVI_pos op rb.1) _, C02.arith_int_sgn op w xb _ rb hf hdiv⟩
+
+theorem C02.case_resize (env : Env) (a : Expr) (w : Nat) (iha : Good env a) : Good env (.resize a w) := by
+  intro t ht hd
+  simp only [typeOf] at ht
+  cases hta : typeOf a with
+  | error er => simp [hta] at ht
+  | ok ta =>
+  simp only [hta] at ht
+  simp only [defined] at hd
+  obtain ⟨ra, ea⟩ := iha ta hta hd
+  cases hva : evalSpec a env with
+  | b xa => cases ta <;> simp_all [InRange]
+  | n xa =>
+  rw [hva] at ra
+  cases ta <;> simp only [ite_ok_iff] at ht
+  all_goals try (simp at ht; done)
+  · rename_i wa
+    obtain ⟨hle, ht⟩ := ht; cases ht
+    have hr := (C02.resize_preserves_value wa w xa hle).1 ra
+    have hs : evalSpec (.resize a w) env = .n xa := by simp [evalSpec, hva, Val.num]
+    rw [hs]
+    refine ⟨⟨le_trans ra.1 hle, ra.2.1, lt_of_lt_of_le ra.2.2 (p2mono hle)⟩, ?_⟩
+    simp only [lower, hta, tyOr, Ty.width]
+    split
+    · rename_i heq; subst heq; rw [ea, hva]
+    · simp only [evalV, ea, hva]; exact hr
+  · rename_i wa
+    obtain ⟨hle, ht⟩ := ht; cases ht
+    have hr := (C02.resize_preserves_value wa w xa hle).2 ra
+    have hm : (2 : Int) ^ (wa - 1) ≤ 2 ^ (w - 1) := p2mono (by omega)
+    have hs : evalSpec (.resize a w) env = .n xa := by simp [evalSpec, hva, Val.num]
+    rw [hs]
+    refine ⟨⟨le_trans ra.1 hle, by linarith [ra.2.1], lt_of_lt_of_le ra.2.2 hm⟩, ?_⟩
+    simp only [lower, hta, tyOr, Ty.width]
+    split
+    · rename_i heq; subst heq; rw [ea, hva]
+    · simp only [evalV, ea, hva]; exact hr
+
+
+/-! ### the induction over `Expr` -/
+
+
+theorem C02.case_all (env : Env) (e : Expr) : Good env e := by
+  induction e with
+  | port i t => exact C02.case_port env i t
+  | lit t v => exact C02.case_lit env t v
+  | intc k => exact C02.case_intc env k
+  | arith op a b iha ihb => exact C02.case_arith env op a b iha ihb
+  | bitop op a b iha ihb => exact C02.case_bitop env op a b iha ihb
+  | inv a iha => exact C02.case_inv env a iha
+  | neg a iha => exact C02.case_neg env a iha
+  | abs a iha => exact C02.case_abs env a iha
+  | cmp op a b iha ihb => exact C02.case_cmp env op a b iha ihb
+  | shl a n iha ihn => exact C02.case_shl env a n iha ihn
+  | shr a n iha ihn => exact C02.case_shr env a n iha ihn
+  | concat a b iha ihb => exact C02.case_concat env a b iha ihb
+  | index a i iha => exact C02.case_index env a i iha
+  | slice a hi lo iha => exact C02.case_slice env a hi lo iha
+  | indexRt a n iha ihn => exact C02.case_indexRt env a n iha ihn
+  | asSgn a iha => exact C02.case_asSgn env a iha
+  | asUns a iha => exact C02.case_asUns env a iha
+  | asBv a iha => exact C02.case_asBv env a iha
+  | resize a w iha => exact C02.case_resize env a w iha
+  | truth a iha => exact C02.case_truth env a iha
+  | lnot a iha => exact C02.case_lnot env a iha
+  | land a b iha ihb => exact C02.case_land env a b iha ihb
+  | lor a b iha ihb => exact C02.case_lor env a b iha ihb
+  | ite c a b ihc iha ihb => exact C02.case_ite env c a b ihc iha ihb
+  | sel arg key e rest iharg ihe ihr => exact C02.case_sel env arg key e rest iharg ihe ihr
+
+
+/-- C02 on the model, FULL strength: for every expression tree (all 26 constructors: ports, typed constants,
+    Python ints on either side, + - * truncdiv % rem, & | ^ ~, neg, abs, all six comparisons, << >>, @, constant
+    index / slice, run-time index, .signed / .unsigned / .bitvector, resize, bool() / not / and / or (hence chained
+    comparisons and any / all), if-expression, select_with), every width and every operand valuation of the
+    documented domain (`defined`: no division by zero), the VHDL expression the back end prints evaluates under
+    numeric_std / std_logic_1164 to the documented value with the documented type and width, and that value lies
+    in the range of the type. -/
+theorem C02.lower_correct (env : Env) (e : Expr) (t : Ty) (ht : typeOf e = .ok t) (hd : defined e env = true) :
+    InRange t (evalSpec e env) ∧ evalV (lower e) env = inj t (evalSpec e env) :=
+  C02.case_all env e t ht hd
+
+/-- result type and width of the emitted expression are the documented ones -/
+theorem C02.lower_type (env : Env) (e : Expr) (t : Ty) (ht : typeOf e = .ok t) (hd : defined e env = true) :
+    ∃ v, InRange t v ∧ evalV (lower e) env = inj t v :=
+  ⟨evalSpec e env, C02.lower_correct env e t ht hd⟩
+
+/-- non-vacuity: a well-typed, defined expression using operators of several families
+    `((p0 - 3) * p1.resize(3))[6:2].signed >> p2  if  (p0 < p1 and not p3)  else  -p4` -/
+example :
+    let e : Expr := .ite (.land (.cmp .lt (.port 0 (.sgn 4)) (.port 1 (.sgn 2))) (.lnot (.port 3 .bit)))
+      (.shr (.asSgn (.slice (.arith .mul (.arith .sub (.port 0 (.sgn 4)) (.intc 3)) (.resize (.port 1 (.sgn 2)) 3)) 6 2))
+            (.port 2 (.uns 2)))
+      (.neg (.port 4 (.sgn 5)))
+    typeOf e = .ok (.sgn 5) ∧ defined e [-8, -2, 3, 0, -16] = true := by
+  decide
+
+/-- a chained comparison `1 < a <= 9` and `any([a, x])` are instances (conjunction / disjunction of the parts) -/
+example : typeOf (.land (.cmp .lt (.intc 1) (.port 0 (.uns 4))) (.cmp .le (.port 0 (.uns 4)) (.intc 9))) = .ok .bool ∧
+    typeOf (.lor (.port 0 (.uns 4)) (.port 1 .bit)) = .ok .bool := by decide
